@@ -229,6 +229,13 @@ the closure uses 2n labels. -/
 theorem closure_valid (strands : Nat) (w : List Int) (l : Link) (h : closure strands w = .ok l) : Valid l :=
   closure_valid' strands w l h
 
+/-- the closure of a word of length `n` uses exactly `2n` distinct edge labels -/
+theorem closure_labels (strands : Nat) (w : List Int) (l : Link) (h : closure strands w = .ok l) :
+    (allEdges l).eraseDups.length = 2 * w.length := by
+  have h1 := twice_labels _ (allEdges l) rfl (closure_valid strands w l h)
+  have h2 := (closure_counts strands w l h).2.2
+  omega
+
 /-- hence no walk on a braid closure can hit the `4·n` bound -/
 theorem closure_traverse (strands : Nat) (w : List Int) (l : Link) (h : closure strands w = .ok l)
     (s : Nat × Nat) (hs : HE l s) : ∃ path, traverse l s = .ok path :=
